@@ -2,9 +2,7 @@
 SPECIFICATION Spec
 CONSTANTS
   Worlds <- WQuick
-  MaxArgs = 2
   MaxTx = 1
-  Families <- FamAll
 VIEW view
 INVARIANTS TypeOK Total AdmittedExecutes LayersInOrder
 PROPERTIES FactsOnlyByExecute PhaseAdvances
